@@ -263,3 +263,108 @@ _add(
     deciding={"any": {"expressions": 100, "distinct_release_orders": 500, "runs_with_concurrently_parked_awaitables": 300, "exhaustively_enumerated_expressions": 5, "contract_multi:evaluate_conditions": 300, "contract_multi:evaluate_format_constraints": 50, "contract_multi:get_hints": 50, "contract_multi:gather_if_necessary": 100, "isolation_runs": 20, "isolation_events": 200, "validity_runs_with_concurrency": 10}},
     headline=["expressions", "runs", "distinct_release_orders", "exhaustively_enumerated_expressions", "isolation_runs", "validity_runs"],
 )
+
+_add(
+    "C13",
+    shards=(4, 14),
+    timeout=(900, 5400),
+    title="validation: exactly once, in order, parents dominate",
+    rule=(
+        "random deep AHB trees (unique discriminators; groups, sub-groups, segments, free-text elements with unique inputs, value pools of 1-5 "
+        "entries; expressions with one or two modal marks incl. SOLL, prefix operators, bare indicators, hints, format constraints, a few "
+        "structurally invalid ones) x random F/U assignments (UNKNOWN in ~12 % of the trees) x both soll values, validated under a random "
+        "completion order of all harness awaitables; log checkers on the returned list: multiset of discriminators = nodes not below a forbidden "
+        "node, sequence = document order, per node status = reference (documented mapping combined with the parent table, FILLED/EMPTY suffix), "
+        "NotImplementedError iff a visited MUSS/prefix node is UNKNOWN; validate_segment_level on a random sub-tree. distinct non-trivial = "
+        "distinct (tree, assignment, flag) with depth >= 3 or pruning"
+    ),
+    deciding={"any": {"trees": 100, "nodes_reported": 1500, "trees_with_pruning": 30, "runs_expecting_not_implemented": 3, "segment_level_calls": 50, "runs_with_concurrently_parked_awaitables": 50}},
+    headline=["trees", "nodes_reported", "nodes_pruned", "runs_expecting_not_implemented", "segment_level_calls"],
+)
+
+_add(
+    "C14",
+    shards=(4, 14),
+    timeout=(900, 5400),
+    title="soll flag = rewriting SOLL",
+    rule=(
+        "metamorphic relation between real runs on random AHB trees biased to carry SOLL at every level (groups, segments, free-text elements, "
+        "value-pool entries; below required and optional parents; UNKNOWN in ~20 % of the trees): validate(T, soll=True) == validate(T[SOLL->MUSS]) "
+        "and validate(T, soll=False) == validate(T[SOLL->KANN]) node by node (status, possible values, format flag and message, hints, type; or the "
+        "same NotImplementedError), the rewritten tree under both flag values, random completion orders; same relation through validate_segment / "
+        "validate_segment_level. Rewriting happens on the generator's parts, whitespace kept. distinct non-trivial = distinct (tree, assignment) "
+        "with SOLL at >= 2 kinds of node"
+    ),
+    deciding={"any": {"trees": 50, "relation_instances": 100, "soll_at:G": 20, "soll_at:S": 20, "soll_at:F": 20, "segment_relation_instances": 30}},
+    headline=["trees", "relation_instances", "relation_instances_not_implemented", "segment_relation_instances"],
+)
+
+_add(
+    "C15",
+    shards=(4, 14),
+    timeout=(900, 5400),
+    title="each free-text element sees only its own input",
+    rule=(
+        "random AHB trees in which every free-text data element has a unique entered input and format-constraint keys owned by that element alone "
+        "(901-999 minus 931-935), expressions with one or two parts attaching the keys to requirement constraints / hints; validated under a "
+        "random completion order with a yielding format-constraint evaluator whose verdict is a keyed predicate of the text; event log per "
+        "evaluation: (key, text passed in, text read from the context variable after the yield) must both be the owner's input; second oracle: "
+        "the element's result in the tree run == validate_data_element_freetext on the element alone with nothing yielding. distinct non-trivial = "
+        "distinct (tree, assignment, schedule) with >= 2 elements' format constraints evaluated and >= 2 awaitables parked at once"
+    ),
+    deciding={"any": {"trees": 100, "fc_events": 500, "trees_with_concurrent_elements": 50, "elements_compared_with_standalone": 300}},
+    headline=["trees", "fc_events", "trees_with_concurrent_elements", "elements_compared_with_standalone"],
+)
+
+_add(
+    "C16",
+    level=FAULTS,
+    shards=(4, 14),
+    timeout=(900, 5400),
+    title="invalid expressions are contained",
+    rule=(
+        "fault = a well-formed but structurally invalid AHB expression (one or two parts, both clauses of the validity rule) planted at a node; "
+        "fault sites: every group, segment, free-text element and value-pool entry of random AHB trees; for trees with <= 8 sites ALL single "
+        "faults and ALL pairs (sampled to 14 subsets per tree on the quick tier), larger subsets sampled above; each faulty tree validated under a "
+        "random completion order and compared node by node with the same tree carrying 'Kann' at the fault sites; faulty nodes must be reported "
+        "optional with the reason as hint, faulty pool entries must be offered, nothing may abort. No UNKNOWN is drawn (the documented "
+        "NotImplementedError belongs to C13). distinct non-trivial = distinct (faulty tree, assignment, flag) whose fault was actually visited"
+    ),
+    deciding={"any": {"trees": 30, "injections": 300, "faults_visited": 200, "fault_at:G": 30, "fault_at:S": 30, "fault_at:F": 30, "fault_at:E": 30}},
+    headline=["trees", "injections", "faults_planted", "faults_visited"],
+)
+
+_add(
+    "C17",
+    shards=(4, 14),
+    timeout=(900, 5400),
+    title="value pools",
+    rule=(
+        "random value pools of 1-8 entries (prefix-operator, modal-mark, bare and two-part entry expressions with hints / format constraints, ~8 % "
+        "structurally invalid entries) x assignments (random incl. UNKNOWN, random F/U, all unfulfilled) x entered inputs (absent, empty, offered, "
+        "pool member that is not offered, foreign) x parent status (required, optional, forbidden), called directly "
+        "(validate_data_element_valuepool) and through validate_segment under a random completion order. Oracle: reference offered set in pool "
+        "order, accept / flag-and-empty / forbidden per the property statement. distinct non-trivial = distinct (pool with >= 2 entries, "
+        "assignment, parent, entry point)"
+    ),
+    deciding={"any": {"pool_cases": 1000, "offered_none": 100, "input:offered": 100, "input:pool-member-not-offered": 50, "input:foreign": 100, "input:absent": 100, "parent:IS_FORBIDDEN": 50, "via_segment_forbidden": 10}},
+    headline=["pool_cases", "offered_none", "input:offered", "input:pool-member-not-offered", "input:foreign"],
+)
+
+_add(
+    "C19",
+    shards=(2, 14),
+    timeout=(900, 5400),
+    title="JSON round trips",
+    rule=(
+        "objects produced by the real code: trees from the condition parser, the AHB parser and the resolver (packages and time conditions "
+        "resolved or not) for generated expressions; requirement / format / AHB evaluation results of real evaluations under assignments with "
+        "UNKNOWN (undetermined = null outcomes); categorized key extracts and the content evaluation results generated from them; plus "
+        "constructed content evaluation results (None hints, packages None / {} / filled, ids, unicode and quote-laden messages) and evaluated "
+        "format constraints. Monitor: Schema().dumps -> json -> loads -> == (for trees additionally the canonical form with token types), and "
+        "evaluating the round-tripped tree == evaluating the original. distinct non-trivial = distinct round-tripped trees, content evaluation "
+        "results and extracts"
+    ),
+    deciding={"any": {"trees": 200, "evaluations_compared": 100, "results_with_undetermined_outcome": 20, "round_trips:ahb-result": 50, "round_trips:requirement-result": 100, "round_trips:format-result": 100, "round_trips:content-evaluation-result": 300, "round_trips:categorized-key-extract": 50, "round_trips:evaluated-format-constraint": 200}},
+    headline=["trees", "evaluations_compared", "results_with_undetermined_outcome"],
+)
